@@ -14,6 +14,7 @@
 #include <algorithm>
 #include <deque>
 #include <memory>
+#include <set>
 #include <vector>
 
 using namespace tbox;
@@ -95,12 +96,21 @@ struct World {
   int bc_epoch = 0;            // number of posts so far
   std::vector<int> bc_waiting; // routines waiting on the broadcast right now
   std::vector<int> bc_must_return;   // routines that were waiting when a post happened and have not returned yet
+  // condition model
+  std::set<int> cm_conds; int cm_waiter = -1; bool cm_any = false, cm_poisoned = false; std::vector<int> cm_must_return;
   bool cleaning = false;
   long quiescence_checks = 0;
 };
 World W;
 
 void create_routine(int r, bool run_now);
+
+// a post counts whether or not somebody waits already (add() ... other work ... wait())
+void cond_post_model(int v) {
+  if (!W.cm_conds.count(v)) return;
+  if (!W.cm_any) { W.cm_conds.erase(v); if (!W.cm_conds.empty()) return; } else W.cm_conds.clear();
+  if (W.cm_waiter >= 0) { W.cm_must_return.push_back(W.cm_waiter); W.cm_waiter = -1; }
+}
 
 void routine_body(int r, Scheduler &sch) {
   RState &me = W.rs[r];
@@ -173,9 +183,20 @@ void routine_body(int r, Scheduler &sch) {
       }
       case S_CANCEL: { int t = (int)(a % NR); if (t != r && W.rs[t].created && !W.rs[t].finished) { W.rs[t].cancel_sent = true; sch.cancel(W.rs[t].token); } break; }
       case S_CREATE: { int t = (int)(a % NR); if (W.rs[t].defined && !W.rs[t].created) create_routine(t, true); break; }
-      case S_CADD: W.cond->add((int)a); break;
-      case S_CWAIT: me.blocked_kind = S_CWAIT; ok = W.cond->wait(); me.blocked_kind = -1; if (!ok && !sch.isCanceled()) ok = true; break;   // "nothing to wait for" is not a failure
-      case S_CPOST: W.cond->post((int)a); break;
+      case S_CADD: W.cond->add((int)a); W.cm_conds.insert((int)a); break;
+      case S_CWAIT: {
+        bool will_block = W.cm_waiter < 0 && !W.cm_conds.empty();
+        if (will_block) W.cm_waiter = r;
+        me.blocked_kind = S_CWAIT; ok = W.cond->wait(); me.blocked_kind = -1;
+        if (will_block) {
+          W.cm_conds.clear();
+          W.cm_must_return.erase(std::remove(W.cm_must_return.begin(), W.cm_must_return.end(), r), W.cm_must_return.end());
+          if (W.cm_waiter == r) { W.cm_waiter = -1; W.cm_poisoned = true; }     // left wait() without a post: cancelled; the object keeps a stale waiter from here on
+        }
+        if (!ok && !sch.isCanceled()) ok = true;   // "nothing to wait for" is not a failure
+        break;
+      }
+      case S_CPOST: cond_post_model((int)a); W.cond->post((int)a); break;
     }
     if (!ok) {
       // a blocking call reported failure: only legal after cancel/cleanup
@@ -218,6 +239,8 @@ void check_quiescence(int timeout_ms) {
     if (t.finished || t.cancel_sent)
       sim::violation("C18/joiner-stranded", sim::fmt("the scheduler is idle, R%d is suspended in join(R%ld) and that routine has %s", r, s.blocked_obj, t.finished ? "finished" : "been cancelled"));
   }
+  if (!W.cm_poisoned && !W.cm_must_return.empty())
+    sim::violation("C18/condition-waiter-not-resumed", sim::fmt("the scheduler is idle and R%d, whose condition has been satisfied by the posts made so far, has not returned from wait()", W.cm_must_return[0]));
   if (!W.bc_must_return.empty())
     sim::violation("C18/broadcast-waiter-not-resumed", sim::fmt("the scheduler is idle and R%d, which was waiting when the broadcast was posted, has not returned from wait()", W.bc_must_return[0]));
 }
@@ -236,6 +259,7 @@ void execute(const sim::Plan &plan) {
   W.sem_init[0] = std::max(0L, std::min(3L, plan.get("sem0"))); W.sem_init[1] = std::max(0L, std::min(3L, plan.get("sem1")));
   for (int s = 0; s < NSEM; ++s) { W.sem[s].reset(new Semaphore(*W.sch, (int)W.sem_init[s])); W.sem_count[s] = W.sem_init[s]; W.sem_acq[s] = W.sem_rel[s] = 0; }
   W.bc.reset(new Broadcast(*W.sch));
+  W.cm_any = plan.get("cond_any") != 0;
   W.cond.reset(new Condition<int>(*W.sch, plan.get("cond_any") ? Condition<int>::Logic::kAny : Condition<int>::Logic::kAll));
 
   for (const sim::Op &op : plan.ops) {
@@ -263,7 +287,7 @@ void execute(const sim::Plan &plan) {
           case S_SEND: { int c = (int)(a % NCH); int v = W.next_val++; W.chq[c].push_back(v); *W.ch[c] << v; break; }
           case S_RELEASE: { int s = (int)(a % NSEM); ++W.sem_rel[s]; ++W.sem_count[s]; W.sem[s]->release(); break; }
           case S_BPOST: { for (int w : W.bc_waiting) W.bc_must_return.push_back(w); W.bc_waiting.clear(); ++W.bc_epoch; W.bc->post(); break; }
-          case S_CPOST: W.cond->post((int)a); break;
+          case S_CPOST: cond_post_model((int)a); W.cond->post((int)a); break;
           case S_CREATE: { int r = (int)(a % NR); if (W.rs[r].defined && !W.rs[r].created) create_routine(r, true); break; }
           default: break;
         }
